@@ -24,7 +24,7 @@ Definition safe_inv (cf : config) (s : state) : Prop :=
   | PStart es o => es = cur_es s /\ o = cur_o s /\ lk = [] /\ sd = [] /\ ab = false
   | PLoad es o | PPark es o =>
       o = cur_o s /\ map fst lk ++ es = cur_es s /\ sd = hits lk /\ ab = false
-  | PLock e es o =>
+  | PLock e es o | PHeld e es o =>
       o = cur_o s /\ map fst lk ++ e :: es = cur_es s /\ sd = hits lk /\ ab = false
   | PSend e es o =>
       o = cur_o s /\ map fst lk ++ es = cur_es s /\ ab = false /\
@@ -112,11 +112,14 @@ Theorem delivery_exact : forall cf cs b s,
   reachable cf cs b s -> delivery_ok (negb (fixed cf)) s.
 Proof.
   intros cf cs b s Hr. destruct (safe_reachable _ _ _ _ Hr) as [Hs Hst].
-  destruct Hst as (_ & _ & _ & Hnone).
+  destruct Hst as (_ & _ & _ & Hnone & _).
   unfold delivery_ok, safe_inv, pre in *.
   destruct (p_pc s) eqn:Epc.
   - (* PNone *) rewrite (Hnone eq_refl). exists [], [], [], 0. fin.
   - destruct Hs as (-> & -> & H1 & H2 & H3). rewrite H1, H2. exists [], [], [], 0. fin.
+  - destruct Hs as (-> & H1 & H2 & H3).
+    exists (looks (log s)), [], [], (length (map fst (looks (log s)))).
+    rewrite app_nil_r, <- H1, firstn_app_exact. fin.
   - destruct Hs as (-> & H1 & H2 & H3).
     exists (looks (log s)), [], [], (length (map fst (looks (log s)))).
     rewrite app_nil_r, <- H1, firstn_app_exact. fin.
